@@ -7,6 +7,7 @@ import (
 	"sync"
 
 	"github.com/tetratelabs/wazero"
+	"github.com/tetratelabs/wazero/api"
 	"github.com/tetratelabs/wazero/imports/wasi_snapshot_preview1"
 
 	"verifharness/wasiguest"
@@ -58,6 +59,12 @@ func (e *engineRT) NewGuest(mc wazero.ModuleConfig) (*wasiguest.Guest, error) {
 		return nil, err
 	}
 	return wasiguest.New(mod), nil
+}
+
+// InstantiateRaw instantiates the shim with exactly the given configuration
+// (the module name is left as configured).
+func (e *engineRT) InstantiateRaw(ctx context.Context, mc wazero.ModuleConfig) (api.Module, error) {
+	return e.rt.InstantiateModule(ctx, e.shim, mc)
 }
 
 func scratchBase() string {
